@@ -142,6 +142,16 @@ func VH_poolKinds(a []string) {
 
 // ---------------------------------------------------------------- C05 rendered token sequences
 
+// index of kw as a whole word (not part of an id) in s, or -1
+func vIndexWord(s, kw string) int {
+	for i := 0; i+len(kw) <= len(s); i++ {
+		if s[i:i+len(kw)] == kw && (i == 0 || !vIsIDChar(s[i-1])) && (i+len(kw) == len(s) || !vIsIDChar(s[i+len(kw)])) {
+			return i
+		}
+	}
+	return -1
+}
+
 func vIsWordy(s string, first bool) bool {
 	if len(s) == 0 {
 		return false
@@ -188,6 +198,19 @@ func VH_renderTokens(a []string) {
 	vNote("text", vShow(text))
 	ok, inv := ValidateLicenses([]string{text})
 	vAssert(ok == want, "accept-iff-grammar")
+	// operators are upper-case only: the same text with a keyword operator in lower case is
+	// never valid - also right after the upper-case spelling has been accepted
+	for _, kw := range []string{"AND", "OR", "WITH"} {
+		if j := vIndexWord(text, kw); j >= 0 {
+			low := text[:j] + strings.ToLower(kw) + text[j+len(kw):]
+			vNote("text", vShow(low))
+			okLow, _ := ValidateLicenses([]string{low})
+			vAssert(!okLow, "lower-case-operator-rejected")
+			_, errLow := ExtractLicenses(low)
+			vAssert(errLow != nil, "lower-case-operator-rejected")
+			vNote("text", vShow(text))
+		}
+	}
 	vAssert(ok == (len(inv) == 0), "flag-iff-none-invalid")
 	_, err := ExtractLicenses(text)
 	vAssert((err == nil) == ok, "extract-err-iff-invalid")
@@ -225,7 +248,16 @@ func VH_offsets(a []string) {
 			vAssume(!vIsIDChar(culprit[12]))
 		}
 	}
-	text := prefix + culprit
+	vOffsetsOne(prefix+culprit, form)
+	// the same culprit again, now at the start of the string: a message must not remember
+	// where the lexeme stood in an earlier call
+	if prefix != "" {
+		vOffsetsOne(culprit, form)
+		vOffsetsOne("MIT OR  "+culprit, form)
+	}
+}
+
+func vOffsetsOne(text string, form string) {
 	vNote("text", vShow(text))
 	_, err := ExtractLicenses(text)
 	if err == nil {
